@@ -1,7 +1,7 @@
 (* C19 — A configuration accepted at start-up cannot crash or corrupt replies later.
    setup4/setup6 model every stateless plugin's setup function over ANY argument vector (any
    strings, any arity) and ANY answers of the text parsers (oracles O). *)
-From Verif Require Import Base BaseProofs Net NetProofs Msg4 Msg6 Chain ChainProofs Server4 Server4Proofs Server6 Server6Proofs Plugins4 Plugins6 Setup PluginRun PluginProofs PluginSpecs PluginExamples.
+From Verif Require Import Base BaseProofs Net NetProofs Msg4 Msg6 Chain ChainProofs Server4 Server4Proofs Server6 Server6Proofs Plugins4 Plugins6 Setup PluginRun PluginProofs PluginSpecs PluginExamples Opt4Codec Opt4Proofs.
 Open Scope N_scope.
 
 Theorem setup4_ok_handler_safe :
@@ -37,6 +37,21 @@ Theorem builtin4_nil_implies_stop :
 Proof. exact (@PluginProofs.builtin4_nil_implies_stop). Qed.
 Print Assumptions builtin4_nil_implies_stop.
 
+
+Theorem opt4_roundtrip :
+  forall (l : list (N * bytes)) (pad : list N),
+  Forall (fun kv : N * bytes => code_ok (fst kv)) l ->
+  NoDup (map fst l) -> decode (enc_list l ++ 255 :: pad) = Some l.
+Proof. exact (@Opt4Proofs.opt4_roundtrip). Qed.
+Print Assumptions opt4_roundtrip.
+
+Theorem opt4_roundtrip_map :
+  forall (o : list (N * bytes)) (pad : list N),
+  Forall (fun kv : N * bytes => code_ok (fst kv)) o ->
+  NoDup (map fst o) ->
+  decode (enc_opts o ++ 255 :: pad) = Some (order o) /\ Permutation.Permutation (order o) o.
+Proof. exact (@Opt4Proofs.opt4_roundtrip_map). Qed.
+Print Assumptions opt4_roundtrip_map.
 
 (* Non-vacuity (proofs/PluginExamples.v): accepted configurations exist *)
 Example hypotheses_satisfiable :
